@@ -32,7 +32,8 @@ def close(a, b, scale=None):
 
 @st.composite
 def crop_constants(draw):
-    n = draw(st.sampled_from(model.HORIZONS))
+    # direct calls: the horizons of full runs (multiples of 12) and any length the crop / greenhouse classes themselves accept (>= 42, their own assertion)
+    n = draw(st.sampled_from(model.HORIZONS) | st.sampled_from([42, 43, 47, 49, 119]) | st.integers(42, 120))
     annual = draw(gen.magnitude(2, 9.5))  # no shipped row has a zero harvest (min 1.4e3 t)
     reloc = draw(st.booleans())
     gh = draw(st.booleans())
